@@ -296,6 +296,8 @@ static void ep3_mul_reg_gls(ep3_t r, const ep3_t p, const bn_t k) {
 		fp3_copy_sec(r->x, q[1]->x, even);
 		fp3_copy_sec(r->y, q[1]->y, even);
 		fp3_copy_sec(r->z, q[1]->z, even);
+		/* The two candidates may be in different coordinate systems. */
+		r->coord = RLC_SEL(r->coord, q[1]->coord, even);
 
 		/* Convert r to affine coordinates. */
 		ep3_norm(r, r);
